@@ -21,6 +21,7 @@ class TranslateError(Exception):
 
 INT, FLOAT, BOOL, ARR, INTLIST, IDL, IDLLIST, BOOLLIST = "Z", "Q", "bool", "(list Q)", "(list Z)", "idl", "(list idl)", "(list bool)"
 STR, STRLIST, DICT = "string", "(list string)", "(list (string * Q))"
+ELT, OPTELT, CONTENT = "E", "(option E)", "(list (option E))"      # timeslice entries of a correlator (abstract element type E)
 IDLMAP = "(string -> idl)"        # a dictionary name -> configuration list, read only (keys are iterated through an alias)
 EXN = {"IndexError": "IndexError", "ValueError": "ValueError", "ZeroDivisionError": "ZeroDivisionError", "TypeError": "TypeError"}
 
@@ -89,18 +90,26 @@ class Fn:
         if isinstance(node, ast.BinOp):
             return self.binop(node, env, binds)
         if isinstance(node, ast.BoolOp):
-            terms = []
-            for i, val in enumerate(node.values):
+            parts = []
+            for val in node.values:
                 b = []
                 t, ty = self.expr(val, env, b)
                 if ty != BOOL:
                     raise TranslateError("%s: and/or on %s" % (self.name, ty))
-                if b and i > 0:
-                    raise TranslateError("%s: operation that can raise behind a short-circuit operator" % self.name)
-                binds.extend(b)
-                terms.append(t)
-            op = " && " if isinstance(node.op, ast.And) else " || "
-            return "(" + op.join(terms) + ")", BOOL
+                parts.append((b, t))
+            is_and = isinstance(node.op, ast.And)
+            if not any(b for b, _ in parts[1:]):
+                binds.extend(parts[0][0])
+                return "(" + (" && " if is_and else " || ").join(t for _, t in parts) + ")", BOOL
+            # an operand that can raise sits behind the short-circuit operator: it is evaluated only when the operands before it do not decide
+            binds.extend(parts[0][0])
+            acc = parts[0][1]
+            for b, t in parts[1:]:
+                r = self.fresh()
+                rest = self.seq(b, "(Ok %s)" % t)
+                binds.append((r, ("(if %s then %s else (Ok false))" if is_and else "(if %s then (Ok true) else %s)") % (acc, rest)))
+                acc = r
+            return acc, BOOL
         if isinstance(node, ast.Compare):
             return self.compare(node, env, binds)
         if isinstance(node, ast.Subscript):
@@ -116,6 +125,8 @@ class Fn:
             ts = [self.expr(e, env, binds) for e in node.elts]
             if ts and all(ty == IDL for _, ty in ts):
                 return "[" + "; ".join(t for t, _ in ts) + "]", IDLLIST
+            if ts and all(ty == OPTELT for _, ty in ts):
+                return "[" + "; ".join(t for t, _ in ts) + "]", CONTENT
             raise TranslateError("%s: list display of %s" % (self.name, [ty for _, ty in ts]))
         if isinstance(node, ast.ListComp):
             return self.listcomp(node, env, binds)
@@ -155,6 +166,18 @@ class Fn:
                 t = self.fresh()
                 binds.append((t, "py_truediv %s %s" % (qa, qb)))
                 return t, FLOAT
+        if ta == OPTELT and tb == OPTELT and op in (ast.Add, ast.Sub, ast.Mult, ast.Div):
+            # arithmetic on two timeslice entries: a None operand raises TypeError
+            f = {ast.Add: "eadd", ast.Sub: "esub", ast.Mult: "emul", ast.Div: "ediv"}[op]
+            t = self.fresh()
+            binds.append((t, "py_ebin %s %s %s" % (f, a, b)))
+            return t, ELT
+        if ta in (INT, FLOAT) and tb == ELT and op is ast.Mult:
+            return "(escale %s %s)" % (self.coerce(a, ta, FLOAT), b), ELT
+        if ta in (INT, FLOAT) and tb == OPTELT and op is ast.Mult:
+            t = self.fresh()
+            binds.append((t, "py_eun (escale %s) %s" % (self.coerce(a, ta, FLOAT), b)))
+            return t, ELT
         if ta == ARR and tb in (INT, FLOAT):
             qb = self.coerce(b, tb, FLOAT)
             f = {ast.Mult: "arr_mul", ast.Div: "arr_div", ast.Add: "arr_add_s"}.get(op)
@@ -186,6 +209,11 @@ class Fn:
             if ty != IDL:
                 raise TranslateError("%s: type(..) is range on %s" % (self.name, ty))
             return "(isr %s)" % t, BOOL
+        if op in (ast.Is, ast.IsNot) and isinstance(right, ast.Constant) and right.value is None:
+            a, ta = self.expr(left, env, binds)
+            if ta != OPTELT:
+                raise TranslateError("%s: `is None` on %s" % (self.name, ta))
+            return ("(is_none %s)" if op is ast.Is else "(negb (is_none %s))") % a, BOOL
         a, ta = self.expr(left, env, binds)
         b, tb = self.expr(right, env, binds)
         if ta == INT and tb == INT:
@@ -234,6 +262,9 @@ class Fn:
             if ti != STR:
                 raise TranslateError("%s: name -> idl dictionary indexed with %s" % (self.name, ti))
             return "(%s %s)" % (t, i), IDL
+        if isinstance(sl, ast.Slice) and ty == CONTENT and sl.lower is None and sl.upper is None and isinstance(sl.step, ast.UnaryOp) \
+                and isinstance(sl.step.op, ast.USub) and isinstance(sl.step.operand, ast.Constant) and sl.step.operand.value == 1:
+            return "(rev %s)" % t, CONTENT
         if isinstance(sl, ast.Slice) and ty == ARR and isinstance(sl.step, ast.UnaryOp) and isinstance(sl.step.op, ast.USub) \
                 and isinstance(sl.step.operand, ast.Constant) and sl.step.operand.value == 1 and sl.lower is not None and sl.upper is not None:
             # a[lo:stop:-1] with stop = `None if c else e` or an integer expression
@@ -269,7 +300,7 @@ class Fn:
             return r, ARR
         if ti != INT:
             raise TranslateError("%s: index of type %s" % (self.name, ti))
-        elt = {IDL: INT, ARR: FLOAT, INTLIST: INT, IDLLIST: IDL}.get(ty)
+        elt = {IDL: INT, ARR: FLOAT, INTLIST: INT, IDLLIST: IDL, CONTENT: OPTELT}.get(ty)
         if elt is None:
             raise TranslateError("%s: subscript of %s" % (self.name, ty))
         seq = "(cfgs %s)" % t if ty == IDL else t
@@ -331,6 +362,8 @@ class Fn:
             return t, INT
         if ty == STRLIST:
             return t, STR
+        if ty == CONTENT:
+            return t, OPTELT
         if ty == IDLLIST:
             return t, IDL
         if ty == IDL:
@@ -350,13 +383,41 @@ class Fn:
             if isinstance(g, ast.Name):
                 parts.append(g.id)
                 dotted = ".".join(reversed(parts))
-        if node.keywords:
+        if node.keywords and not (fname in ("Corr",) or (fname == "list")):
             raise TranslateError("%s: keyword arguments in a call" % self.name)
+        if fname == "Corr" and len(node.args) == 1 and all(k.arg == "prange" for k in node.keywords):
+            # the constructor is outside this translation: the new content is the result
+            t, ty = self.expr(node.args[0], env, binds)
+            if ty != CONTENT:
+                raise TranslateError("%s: Corr(%s)" % (self.name, ty))
+            return t, CONTENT
+        if fname == "_check_for_none" and len(node.args) == 2 and not node.keywords:
+            t, ty = self.expr(node.args[1], env, binds)
+            if ty != OPTELT:
+                raise TranslateError("%s: _check_for_none on %s" % (self.name, ty))
+            return "(is_none %s)" % t, BOOL
+        if fname == "all" and len(node.args) == 1 and not node.keywords:
+            t, ty = self.expr(node.args[0], env, binds)
+            if ty != BOOLLIST:
+                raise TranslateError("%s: all(%s)" % (self.name, ty))
+            return "(forallb (fun b : bool => b) %s)" % t, BOOL
+        if fname == "list" and len(node.args) == 1 and isinstance(node.args[0], ast.Call) and _d(node.args[0].func) == _d(ast.parse("np.roll", mode="eval").body):
+            r = node.args[0]
+            kws = {k.arg: k.value for k in r.keywords}
+            inner = r.args[0] if r.args else None
+            if len(r.args) == 2 and set(kws) == {"axis"} and isinstance(kws["axis"], ast.Constant) and kws["axis"].value == 0 \
+                    and isinstance(inner, ast.Call) and _d(inner.func) == _d(ast.parse("np.array", mode="eval").body) and len(inner.args) == 1 \
+                    and [k.arg for k in inner.keywords] == ["dtype"] and isinstance(inner.keywords[0].value, ast.Name) and inner.keywords[0].value.id == "object":
+                c, tc = self.expr(inner.args[0], env, binds)
+                d, td = self.expr(r.args[1], env, binds)
+                if tc == CONTENT and td == INT:
+                    return "(py_roll %s %s)" % (c, d), CONTENT
+            raise TranslateError("%s: np.roll call shape" % self.name)
         if fname == "len" and len(node.args) == 1:
             t, ty = self.expr(node.args[0], env, binds)
             if ty == IDL:
                 return "(zlen (cfgs %s))" % t, INT
-            if ty in (ARR, INTLIST, IDLLIST, STRLIST):
+            if ty in (ARR, INTLIST, IDLLIST, STRLIST, CONTENT):
                 return "(zlen %s)" % t, INT
             raise TranslateError("%s: len of %s" % (self.name, ty))
         if fname == "isinstance" and len(node.args) == 2 and isinstance(node.args[1], ast.Name) and node.args[1].id == "range":
@@ -574,6 +635,10 @@ class Fn:
                     raise TranslateError("%s: dictionary store with a key of type %s" % (self.name, ti))
                 dn = self.v(tgt.value.id)
                 return self.seq(b, "let %s := (dict_put %s %s %s) in %s" % (dn, dn, i, self.coerce(t, ty, FLOAT), nxt(env)))
+            if isinstance(tgt, ast.Name) and isinstance(s.value, ast.List) and not s.value.elts and self.hints.get(tgt.id) == CONTENT:
+                env2 = dict(env)
+                env2[tgt.id] = CONTENT
+                return "let %s := ([] : list (option E)) in %s" % (self.v(tgt.id), nxt(env2))
             if isinstance(tgt, ast.Name) and isinstance(s.value, ast.List) and not s.value.elts:
                 if self.hints.get(tgt.id) != INTLIST:
                     raise TranslateError("%s: empty list literal of unknown element type (%s)" % (self.name, tgt.id))
@@ -639,6 +704,17 @@ class Fn:
                 and s.value.func.attr == "append" and isinstance(s.value.func.value, ast.Name) and len(s.value.args) == 1:
             lst = s.value.func.value.id
             b = []
+            if env.get(lst) == CONTENT:
+                arg = s.value.args[0]
+                if isinstance(arg, ast.Constant) and arg.value is None:
+                    t, ty = "None", OPTELT
+                else:
+                    t, ty = self.expr(arg, env, b)
+                    if ty == ELT:
+                        t, ty = "(Some %s)" % t, OPTELT
+                if ty != OPTELT:
+                    raise TranslateError("%s: append of %s to a correlator content" % (self.name, ty))
+                return self.seq(b, "let %s := (%s ++ [%s]) in %s" % (self.v(lst), self.v(lst), t, nxt(env)))
             t, ty = self.expr(s.value.args[0], env, b)
             if env.get(lst) not in (INTLIST, None) or ty != INT:
                 raise TranslateError("%s: append of %s to %s" % (self.name, ty, env.get(lst)))
@@ -817,15 +893,70 @@ SIGS = [
 ]
 
 
-def translate_source(src, sigs=None, only=None):
-    """-> (coq text, [names translated])"""
+def _drop_warn_blocks(stmts):
+    """Remove `if ...:` statements whose body only prepares and emits a warning (no return / raise / append / store): they cannot change
+    the result; whether their evaluation can raise is left to the correspondence checks."""
+    out = []
+    for st in stmts:
+        if isinstance(st, ast.If) and not st.orelse:
+            has_warn = any(isinstance(n, ast.Call) and _d(n.func) == _d(ast.parse("warnings.warn", mode="eval").body) for n in ast.walk(st))
+            effects = any(isinstance(n, (ast.Return, ast.Raise, ast.AugAssign)) or
+                          (isinstance(n, ast.Call) and isinstance(n.func, ast.Attribute) and n.func.attr == "append") or
+                          (isinstance(n, ast.Assign) and any(not isinstance(t, ast.Name) for t in n.targets)) for n in ast.walk(st))
+            if has_warn and not effects:
+                continue
+        out.append(st)
+    return out
+
+
+def frag_corr_corr_branch(fn):
+    """The body of the `if isinstance(y, Corr):` branch of a binary operator of Corr."""
+    first = [st for st in fn.body if not (isinstance(st, ast.Expr) and isinstance(st.value, ast.Constant))][0]
+    if not (isinstance(first, ast.If) and _d(first.test) == _d(ast.parse("isinstance(y, Corr)", mode="eval").body)):
+        raise TranslateError("%s: the method does not start with `if isinstance(y, Corr):`" % fn.name)
+    return first.body
+
+
+def frag_drop_warnings(fn):
+    return _drop_warn_blocks(fn.body)
+
+
+_CORR = dict(file="correlators.py", section="corr")
+_CORR_ALIASES = {"self.content": ("v_content", CONTENT), "self.T": ("(zlen v_content)", INT), "self.N": ("v_N", INT),
+                 "y.content": ("v_ycontent", CONTENT), "y.T": ("(zlen v_ycontent)", INT), "y.N": ("v_yN", INT)}
+CORR_SIGS = [
+    dict(coq="corr_thin", py="Corr.thin", params=[("self", None), ("spacing", INT), ("offset", INT)], ret=CONTENT, defaults_ok=True,
+         extra_params=[("v_content", CONTENT)], aliases=_CORR_ALIASES, hints={"new_content": CONTENT}, **_CORR),
+    dict(coq="corr_reverse", py="Corr.reverse", params=[("self", None)], ret=CONTENT, extra_params=[("v_content", CONTENT)], aliases=_CORR_ALIASES, **_CORR),
+    dict(coq="corr_roll", py="Corr.roll", params=[("self", None), ("dt", INT)], ret=CONTENT, extra_params=[("v_content", CONTENT)], aliases=_CORR_ALIASES, **_CORR),
+    dict(coq="corr_symmetric", py="Corr.symmetric", fragment=frag_drop_warnings, params=[], ret=CONTENT,
+         extra_params=[("v_content", CONTENT), ("v_N", INT)], aliases=_CORR_ALIASES, **_CORR),
+    dict(coq="corr_anti_symmetric", py="Corr.anti_symmetric", fragment=frag_drop_warnings, params=[], ret=CONTENT,
+         extra_params=[("v_content", CONTENT), ("v_N", INT)], aliases=_CORR_ALIASES, **_CORR),
+    dict(coq="corr_add_corr", py="Corr.__add__", fragment=frag_corr_corr_branch, params=[], ret=CONTENT,
+         extra_params=[("v_content", CONTENT), ("v_N", INT), ("v_ycontent", CONTENT), ("v_yN", INT)], aliases=_CORR_ALIASES, hints={"newcontent": CONTENT}, **_CORR),
+    dict(coq="corr_mul_corr", py="Corr.__mul__", fragment=frag_corr_corr_branch, params=[], ret=CONTENT,
+         extra_params=[("v_content", CONTENT), ("v_N", INT), ("v_ycontent", CONTENT), ("v_yN", INT)], aliases=_CORR_ALIASES, hints={"newcontent": CONTENT}, **_CORR),
+]
+SECTION_HEADERS = {
+    "corr": ["Section CorrOps.", "Variable E : Type.", "Variables eadd esub emul ediv : E -> E -> E.", "Variable escale : Q -> E -> E."],
+}
+
+
+def translate_source(src, sigs=None, only=None, sources=None):
+    """-> (coq text, [names translated]).  `sources`: file name -> text for signatures that name another file of pyerrors."""
     tree = ast.parse(src)
-    sigs = sigs or SIGS
+    trees = {"obs.py": tree}
+    for fn_, tx_ in (sources or {}).items():
+        trees[fn_] = ast.parse(tx_)
+    sigs = sigs or (SIGS + CORR_SIGS)
+
     out = ["(* GENERATED by translate/t_pycore.py from pyerrors/obs.py -- do not edit *)",
            "From Coq Require Import ZArith QArith List Bool.",
            "From Coq Require Import String.", "From PV Require Import Base.QAux Obs.Model Py.Prim.",
            "Import ListNotations.", "Open Scope Z_scope.", ""]
     done = {}
+    cur_section = None
     if only:
         only = list(only)
         for sg in sigs:
@@ -834,11 +965,13 @@ def translate_source(src, sigs=None, only=None):
     for sg in sigs:
         if only and sg["coq"] not in only:
             continue
-        fn = find_function(tree, sg["py"])
+        if sg.get("file", "obs.py") not in trees:
+            raise TranslateError("%s: source file %s was not supplied" % (sg["coq"], sg.get("file")))
+        fn = find_function(trees[sg.get("file", "obs.py")], sg["py"])
         if "fragment" in sg:
             stmts = sg["fragment"](fn)
         else:
-            if fn.decorator_list or fn.args.vararg or fn.args.kwarg or fn.args.kwonlyargs or fn.args.defaults:
+            if fn.decorator_list or fn.args.vararg or fn.args.kwarg or fn.args.kwonlyargs or (fn.args.defaults and not sg.get("defaults_ok")):
                 raise TranslateError("%s: decorators / defaults / *args are outside the subset" % sg["py"])
             pyparams = [a.arg for a in fn.args.args]
             if pyparams != [p for p, _ in sg["params"]]:
@@ -858,14 +991,25 @@ def translate_source(src, sigs=None, only=None):
         body = f.block(stmts, env, fin)
         binder = " ".join("(%s : %s)" % (f.v(p), ty) for p, ty in sg["params"] if ty is not None)
         binder += "".join(" (%s : %s)" % (n, ty) for n, ty in sg.get("extra_params", []))
+        sec = sg.get("section")
+        if sec != cur_section:
+            if cur_section:
+                out.append("End %s.\n" % SECTION_HEADERS[cur_section][0].split()[1].rstrip("."))
+            if sec:
+                out.extend(SECTION_HEADERS[sec])
+            cur_section = sec
         out.append("Definition %s %s : res %s :=\n  %s.\n" % (sg["coq"], binder, sg["ret"], body))
         done[sg["coq"]] = sg
+    if cur_section:
+        out.append("End %s.\n" % SECTION_HEADERS[cur_section][0].split()[1].rstrip("."))
     return "\n".join(out), list(done)
 
 
 def translate_repo(repo="/repo", **kw):
+    with open("%s/pyerrors/correlators.py" % repo) as fh:
+        corr = fh.read()
     with open("%s/pyerrors/obs.py" % repo) as fh:
-            return translate_source(fh.read(), **kw)
+        return translate_source(fh.read(), sources={"correlators.py": corr}, **kw)
 
 
 if __name__ == "__main__":
